@@ -12,6 +12,7 @@ import PyamgV.Proofs.ExtC19Inv
 import PyamgV.Proofs.ExtC19bBlock
 import PyamgV.Proofs.ExtC19bInst
 import PyamgV.Proofs.ExtC19bCoo
+import PyamgV.Proofs.ExtC19SVec
 
 /-! # C19 — matrix utilities compute their stated algebraic result
 
@@ -174,6 +175,59 @@ restate coo_scale_idx := PyamgV.C19.cooScale_idx
 bound: in exact arithmetic the estimate never exceeds the spectral radius -/
 restate ritz_le_rho := PyamgV.ritz_le_rho
 
+
+/-! ### (E39) the Krylov process behind `approximate_spectral_radius` / `condest`
+Model `C19S.arnStep` / `lanStep` / `aeRun` / `approxEig` (`Model/ExtC19SArnoldi.lean`): the loop of
+`_approximate_eigenvalues`, run in binary64 by the driver (op `ext_c19_arnoldi`) and compared with the `H`, `V` and
+`breakdown_flag` of the code for given start vectors.  The theorems are about the same definitions over a module
+over an ordered field with a definite symmetric form and an exact square root (`Exact`: form definite,
+`sqrt a * sqrt a = a` for `a >= 0`, breakdown tolerance `> 0`, start vector `!= 0`); real scalars only. -/
+/-- (E39) every state of the Arnoldi model (any number of passes, through a breakdown): `v_0 .. v_m` pairwise
+orthogonal, norm one (the vector appended by the pass that detected a breakdown: norm zero or one), `m + 1` vectors for
+`m` columns -/
+restate arnoldi_model_orthonormal := PyamgV.C19S.arnoldi_model_orthonormal
+/-- (E39) no breakdown detected so far: `k` passes give exactly `k` columns -/
+restate arnoldi_model_length := PyamgV.C19S.arnoldi_model_length
+/-- (E39) `_approximate_eigenvalues` = `min(n, maxiter)` passes; rejected when that is zero -/
+restate approx_eig_is_run := PyamgV.C19S.approxEig_eq_run
+/-- (E39) **`H = V^T A V`**: `H_{ij} = <v_i, A v_j>` on the leading block -/
+restate arnoldi_model_H_eq := PyamgV.C19S.arnoldi_model_H_eq
+/-- (E39) `H` is upper Hessenberg and `A v_j = sum_{l <= m} H_{lj} v_l` for every column -/
+restate arnoldi_model_relation := PyamgV.C19S.arnoldi_model_relation
+/-- (E39) symmetric `A`: the leading block of `H` is symmetric and tridiagonal -/
+restate arnoldi_model_H_symm := PyamgV.C19S.arnoldi_model_H_symm
+/-- (E39) **the hypotheses of `ritz_le_rho` are discharged for the model**: `Q y = sum y_i v_i` is an isometry of
+`K^m` into the space and every eigenpair of the leading block satisfies the Galerkin condition -/
+restate arnoldi_model_ritz_hyps := PyamgV.C19S.arnoldi_model_ritz_hyps
+/-- (E39) ... so `ritz_le_rho` applies: every eigenvalue `theta` of the leading block of `H` has `|theta| <= rho` whenever
+`|<A x, x>| <= rho <x, x>` (`rho` = spectral radius for symmetric `A`): the estimate `max |theta|` returned by every
+restart cycle, for every start vector, never exceeds the spectral radius -/
+restate arnoldi_model_ritz_le_rho := PyamgV.C19S.arnoldi_model_ritz_le_rho
+/-- (E39) the same for eigenvectors given as functions on `Nat` (`IsRitz`) -/
+restate arnoldi_model_ritz_abs_le := PyamgV.C19S.arnoldi_model_ritz_abs_le
+/-- (E39) **Ritz values lie in `[lambda_min, lambda_max]`** (any Rayleigh bounds `lo <x,x> <= <Ax,x> <= hi <x,x>`) -/
+restate arnoldi_model_ritz_between := PyamgV.C19S.arnoldi_model_ritz_between
+/-- (E39) residual of a Ritz pair: `A x - theta x = (H_{m,m-1} y_{m-1}) v_m`, `x = V y != 0` -- the `error` quantity
+`H[nvecs, nvecs-1] * evect[-1, max_index]` of `approximate_spectral_radius` -/
+restate arnoldi_model_residual := PyamgV.C19S.arnoldi_model_residual
+/-- (E39) **breakdown = invariant subspace**: when the last subdiagonal entry is zero every Ritz pair is an eigenpair
+of `A` -/
+restate arnoldi_model_breakdown_eigen := PyamgV.C19S.arnoldi_model_breakdown_eigen
+/-- (E39) **`symmetric=True` (Lanczos) = Arnoldi in exact arithmetic** for a symmetric operator: same columns of `H`,
+same flag, the two retained vectors are the last two Arnoldi vectors -/
+restate lanczos_eq_arnoldi := PyamgV.C19S.lanczos_eq_arnoldi
+restate lanczos_cols_eq := PyamgV.C19S.lanczos_cols_eq
+/-- (E39) ... hence the bounds for the Ritz values of the matrix the symmetric branch returns (`condest`) -/
+restate lanczos_model_ritz_abs_le := PyamgV.C19S.lanczos_model_ritz_abs_le
+restate lanczos_model_ritz_between := PyamgV.C19S.lanczos_model_ritz_between
+/-- (E39) the model commutes with every homomorphism of the vector operations ... -/
+restate arnoldi_run_hom := PyamgV.C19S.aeRun_hom
+/-- (E39) ... so the statements hold for the `Vector K n` instance `approxEigVec` that the driver runs (in `Float`):
+orthonormal basis and `H = V^T A V`, Ritz bounds, Lanczos = Arnoldi for `A = A^T` -/
+restate vec_arnoldi_orthonormal := PyamgV.C19S.vec_arnoldi_orthonormal
+restate vec_arnoldi_ritz := PyamgV.C19S.vec_arnoldi_ritz
+restate vec_lanczos_eq_arnoldi := PyamgV.C19S.vec_lanczos_eq_arnoldi
+
 /-! ### non-vacuity: the models do what the theorems say on concrete irregular inputs -/
 open PyamgV.C19 in
 example : scaleMajor (α := Rat) #[2, 1/2] [[(1, 3), (0, 1)], [(1, 4), (1, -2)]] = [[(1, 6), (0, 2)], [(1, 2), (1, -1)]] := by
@@ -220,5 +274,18 @@ example : PyamgV.C19.scaleBlockInverse (α := Rat) id 1 #[#[2, 1], #[3, 0]]
 /-- (E26) COO fallback: unsorted triples with a duplicated position -/
 example : PyamgV.C19.cooScale (α := Rat) true #[2, 1/2] 2 [(1, 0, 3), (0, 1, 2), (1, 0, 1), (0, 0, 5)]
     = [[(0, 10), (1, 4)], [(0, 2)]] := by decide +kernel
+
+/-- (E39) exact run of the Arnoldi model (`A = [[2,1],[1,2]]`, `v0 = (3,4)`, all norms rational): orthonormal `V`,
+`H = V^T A V = [[74/25, 7/25],[7/25, 26/25]]` with eigenvalues `1, 3` = the eigenvalues of `A` (breakdown in pass 2,
+`H_{2,1} = 0`); the symmetric branch returns the same columns -/
+example : PyamgV.C19S.approxEigRat [[2, 1], [1, 2]] (1/1000000) false 5 [3, 4]
+      = some ([[3/5, 4/5], [4/5, -3/5], [0, 0]], [[74/25, 7/25], [7/25, 26/25, 0]], true)
+    ∧ PyamgV.C19S.approxEigRat [[2, 1], [1, 2]] (1/1000000) true 5 [3, 4]
+      = some ([[3/5, 4/5], [4/5, -3/5]], [[74/25, 7/25], [7/25, 26/25, 0]], true) := by decide +kernel
+/-- (E39) **what the code does for a nonsymmetric matrix**: `A = [[0,1],[0,0]]` is nilpotent (`rho(A) = 0`), the
+one-pass estimate from `v0 = (3,4)` is the Rayleigh quotient `12/25 > 0`: Ritz values lie in the numerical range, not
+below the spectral radius; the property promises the bound for Hermitian matrices only -/
+example : PyamgV.C19S.approxEigRat [[0, 1], [0, 0]] (1/1000000) false 1 [3, 4]
+      = some ([[3/5, 4/5], [4/5, -3/5]], [[12/25, 16/25]], false) := by decide +kernel
 
 end PyamgV.Props.C19
